@@ -27,6 +27,7 @@ func extraAgents(s *Sim) []Agent {
 	add("executor", &ExecutorAgent{baseAgent: newBase(s, "executor")})
 	add("attacker", &AttackerAgent{baseAgent: newBase(s, "attacker")})
 	add("squatter", &SquatterAgent{baseAgent: newBase(s, "squatter")})
+	add("canary", &CanaryAgent{baseAgent: newBase(s, "canary"), sent: map[string]int64{}})
 	return out
 }
 
